@@ -48,6 +48,9 @@ class Builder:
         self.parts, self.sites = [], []
 
     def noise(self):
+        if self.eol.strip(" ") == "" and self.eol:
+            self.parts.append("/* wide */ ")          # no line comments on a one-line file
+            return
         for _ in range(self.rng.randrange(0, 4)):
             self.parts.append(self.rng.choice(NOISE_LINES if self.rich else NOISE_LINES[:1] + [""]) + self.eol)
 
@@ -68,7 +71,8 @@ class Builder:
 
 
 def workspace(rng, variant):
-    eol = {"ascii": "\n", "rich": "\n", "crlf": "\r\n", "rich-crlf": "\r\n", "cr": "\r"}[variant]
+    # "wide": almost everything on one very long line (many concurrent requests convert columns of the same line)
+    eol = {"ascii": "\n", "rich": "\n", "crlf": "\r\n", "rich-crlf": "\r\n", "cr": "\r", "wide": " " * 60}[variant]
     rich = variant.startswith("rich")
     I = lambda n: ("id", n)
     lib = Builder(rng, eol, rich)
@@ -106,12 +110,19 @@ def make_items(i, ws, wd):
     queries = []
     for n in ("main.td", "lib.td"):
         text, sites = ws[n]
-        for m in ("documentSymbol", "foldingRange", "documentLink", "inlayHint"):
+        # (a file with one very long line: the same whole-file requests many times over, all in flight together)
+        wide = "\n" not in text.strip() and "\r" not in text.strip()
+        first_of = {}
+        for m in ("documentSymbol", "foldingRange", "documentLink", "inlayHint") * (12 if wide else 1):
             params = {}
             if m == "inlayHint":
                 params = {"range": {"start": {"line": 0, "character": 0}, "end": lsp_pos(text, len(text.encode("utf-8")))}}
             steps.append({"op": "request", "method": "textDocument/" + m, "file": n, "params": params})
             queries.append({"m": m, "path": os.path.join(d, n)})
+            if m in first_of:
+                queries[-1]["dup"] = first_of[m]        # a repetition: must answer exactly what the first one (validated) answered
+            else:
+                first_of[m] = len(queries) - 1
         for off in sites:
             for m in ("definition", "references"):
                 params = {"position": lsp_pos(text, off)}
@@ -163,6 +174,10 @@ def pair(ws, queries, srec, irec, d):
     for q, resp, ans in zip(queries[:nreq], responses, irec["answers"][:nreq]):
         m = q["m"]
         res = resp["result"] if resp.get("ok") else "ERROR"
+        if q.get("dup") is not None:
+            if res != (responses[q["dup"]]["result"] if responses[q["dup"]].get("ok") else "ERROR"):
+                problems.append("%s concurrent-identical-requests-answered-differently" % m)
+            continue
         if res == "ERROR":
             problems.append("%s error-response" % m)
             continue
@@ -244,7 +259,7 @@ def check_c09(tier, seed):
     wd = common.workdir("C09-%s" % tier)
     quick = tier == "quick"
     rng = random.Random("%d/c09" % seed)
-    variants = ["ascii", "rich", "crlf", "rich-crlf", "cr"]
+    variants = ["ascii", "rich", "crlf", "rich-crlf", "cr", "wide"]
     wss, srv_items, ide_items, qs, ide2_items, texts2 = [], [], [], [], [], []
     for i in range(40 if quick else 600):
         ws = workspace(rng, variants[i % len(variants)])
